@@ -287,12 +287,18 @@ fn cmp_expr(g: &GExpr, a: &tsg::Expression, what: &str) -> R {
         }
         (GExpr::List(xs), E::ListLiteral(l)) => cmp_exprs(xs, &l.elements, &format!("{} list", what)),
         (GExpr::Set(xs), E::SetLiteral(l)) => cmp_exprs(xs, &l.elements, &format!("{} set", what)),
-        (GExpr::ListComp { elem, var, src, .. }, E::ListComprehension(c)) => {
+        (GExpr::ListComp { elem, var, src, loc }, E::ListComprehension(c)) => {
+            if !loc_eq(*loc, c.location) {
+                return Err(format!("{}: list comprehension written at {:?}, recorded at ({}, {})", what, loc, c.location.row, c.location.column));
+            }
             cmp_expr(elem, &c.element, what)?;
             cmp_uvar(var, &c.variable, what)?;
             cmp_expr(src, &c.value, what)
         }
-        (GExpr::SetComp { elem, var, src, .. }, E::SetComprehension(c)) => {
+        (GExpr::SetComp { elem, var, src, loc }, E::SetComprehension(c)) => {
+            if !loc_eq(*loc, c.location) {
+                return Err(format!("{}: set comprehension written at {:?}, recorded at ({}, {})", what, loc, c.location.row, c.location.column));
+            }
             cmp_expr(elem, &c.element, what)?;
             cmp_uvar(var, &c.variable, what)?;
             cmp_expr(src, &c.value, what)
@@ -406,12 +412,20 @@ fn cmp_stmt(g: &GStmt, a: &tsg::Statement, what: &str) -> R {
                 return Err(format!("{}: {} if-arms written, {} parsed", what, arms.len(), s.arms.len()));
             }
             for (i, (x, y)) in arms.iter().zip(s.arms.iter()).enumerate() {
+                if !loc_eq(x.loc, y.location) {
+                    return Err(format!("{} arm{}: if/elif/else keyword written at {:?}, recorded at ({}, {})", what, i, x.loc, y.location.row, y.location.column));
+                }
                 if x.conds.len() != y.conditions.len() {
                     return Err(format!("{} arm{}: {} conditions written, {} parsed", what, i, x.conds.len(), y.conditions.len()));
                 }
                 for (c, d) in x.conds.iter().zip(y.conditions.iter()) {
                     match (c.kind, d) {
-                        (CondKind::Some, tsg::Condition::Some { value, .. }) | (CondKind::None, tsg::Condition::None { value, .. }) | (CondKind::Bool, tsg::Condition::Bool { value, .. }) => cmp_expr(&c.expr, value, &format!("{} arm{} condition", what, i))?,
+                        (CondKind::Some, tsg::Condition::Some { value, location }) | (CondKind::None, tsg::Condition::None { value, location }) | (CondKind::Bool, tsg::Condition::Bool { value, location }) => {
+                            if !loc_eq(c.loc, *location) {
+                                return Err(format!("{} arm{}: condition written at {:?}, recorded at ({}, {})", what, i, c.loc, location.row, location.column));
+                            }
+                            cmp_expr(&c.expr, value, &format!("{} arm{} condition", what, i))?
+                        }
                         (k, d) => return Err(format!("{} arm{}: condition {:?} {} parsed as {}", what, i, k, c.expr.display(), d)),
                     }
                 }
@@ -437,6 +451,9 @@ fn cmp_file(g: &GFile, f: &tsg::File) -> R {
         if y.name.as_str() != x.name || !quant_eq(x.quant, y.quantifier) || x.default != y.default {
             return Err(format!("global {}{} default {:?} parsed as {} {:?} default {:?}", x.name, x.quant.suffix(), x.default, y.name.as_str(), y.quantifier, y.default));
         }
+        if !loc_eq(x.loc, y.location) {
+            return Err(format!("global {} written at {:?}, recorded at ({}, {})", x.name, x.loc, y.location.row, y.location.column));
+        }
     }
     let mut gi: Vec<String> = g.inherits().iter().map(|s| s.to_string()).collect();
     gi.sort();
@@ -452,6 +469,9 @@ fn cmp_file(g: &GFile, f: &tsg::File) -> R {
     }
     for s in gs {
         let a = f.shorthands.get(&Identifier::from(s.name.as_str())).ok_or(format!("shorthand {} not found", s.name))?;
+        if !loc_eq(s.loc, a.location) {
+            return Err(format!("shorthand {} written at {:?}, recorded at ({}, {})", s.name, s.loc, a.location.row, a.location.column));
+        }
         cmp_uvar(&s.var, &a.variable, &format!("shorthand {}", s.name))?;
         cmp_attrs(&s.attrs, &a.attributes, &format!("shorthand {}", s.name))?;
     }
